@@ -14,10 +14,10 @@ def B := asciiB "b:80"
     stale-reference window (finding F2): a request that was routed and passed the gate on the
     old service object, and claims while the replaced target is being drained, is refused. -/
 def f2_refused : List Op :=
-  [.hold A true, .deploy 1 s1 false [A] 2000000000 700000000,
+  [.hold A true, .deploy 1 s1 s1 false [A] 2000000000 700000000,
    .req 1 s1 [] false,                                   -- in flight on the old target
    .arm "req.gated", .req 2 s1 [] false, .disarm "req.gated",   -- r2 routed + gated, then parked
-   .deploy 2 s1 false [B] 2000000000 700000000,          -- swap; the drain of `a` waits for r1
+   .deploy 2 s1 s1 false [B] 2000000000 700000000,          -- swap; the drain of `a` waits for r1
    .release "req.gated" "r2"]
 
 theorem C02_witness_stale_claim_refused :
@@ -77,8 +77,8 @@ theorem C02_signal_only_with_refresh (w : World) (tid : Nat) (t : Tgt) (ht : get
     simp [ht, h1]
 
 -- tests by evaluation: requests before, during (in flight) and after a redeploy between healthy sets
-example : ((runOps [.hold A true, .deploy 1 s1 false [A] 2000000000 700000000, .req 1 s1 [] false,
-    .deploy 2 s1 false [B] 2000000000 700000000, .req 2 s1 [] false, .respond 1 200]).events.filter
+example : ((runOps [.hold A true, .deploy 1 s1 s1 false [A] 2000000000 700000000, .req 1 s1 [] false,
+    .deploy 2 s1 s1 false [B] 2000000000 700000000, .req 2 s1 [] false, .respond 1 200]).events.filter
       fun e => e.startsWith "done" || e.startsWith "cmd") =
     ["cmd c1 res=ok", "done r2 status=200 by=b:80", "done r1 status=200 by=a:80", "cmd c2 res=ok"] := by decide +kernel
 
